@@ -11,7 +11,9 @@ import (
 type Gen struct {
 	X *Exec
 	// Bound gives, for the slice at path, the number of materialised elements and the largest length.
-	Bound func(path string) (mat int, max uint64)
+	Bound func(path string, t types.Type) (mat int, max uint64)
+	// Min, when set, gives the smallest length of the slice at path.
+	Min func(path string, t types.Type) uint64
 	// Leaf, when it returns a non-nil value, overrides the generation at path.
 	Leaf func(path string, t types.Type) Val
 	// Index records every generated value by path.
@@ -55,9 +57,14 @@ func (g *Gen) make(t types.Type, path string) Val {
 		}
 		return a
 	case *types.Slice:
-		b, mx := g.Bound(path)
+		b, mx := g.Bound(path, t)
 		n := g.X.Declare(path+".len", 64)
 		g.X.Assume = append(g.X.Assume, fmt.Sprintf("(bvule %s (_ bv%d 64))", n.S, mx))
+		if g.Min != nil {
+			if mn := g.Min(path, t); mn > 0 {
+				g.X.Assume = append(g.X.Assume, fmt.Sprintf("(bvuge %s (_ bv%d 64))", n.S, mn))
+			}
+		}
 		bk := &Backing{ElemT: u.Elem()}
 		for i := 0; i < b; i++ {
 			bk.Cells = append(bk.Cells, &Cell{V: g.Make(u.Elem(), fmt.Sprintf("%s!%d", path, i))})
